@@ -9,6 +9,9 @@ import Genq.Model.Config
 import Genq.Model.Doc
 import Genq.Model.InputClosure
 import Genq.Proofs.InputClosure
+import Genq.Proofs.Lines
+import Genq.Model.GenSkel
+import Genq.Extracted.Gen
 namespace Genq.Config
 
 section Lemmas
@@ -117,3 +120,30 @@ example : visit ⟨fun n => if n == "A" then ["B", "C"] else if n == "B" then ["
 
 end Genq.InputClosure
 
+/-! ### the scan for comments above a node never leaves the line slice (Model/Lines.lean) -/
+namespace Genq.Lines
+
+/-- **C07_comment_scan_in_range** — parsePrecedingComment indexes `sourceLines[i-1]` for i = pos.Line-1 … 1.  For
+    EVERY source text, every token in it (starting right after any prefix `pre`, hence on the lexer's line
+    `lexBreaks pre + 1`) and whatever follows it, those indices lie inside the line slice the fixed code builds —
+    for "\n", "\r\n", bare "\r" line ends and any mixture -/
+theorem C07_comment_scan_in_range (pre post : Str) (i : Nat) (h1 : 1 ≤ i) (h2 : i ≤ lexBreaks pre) :
+    i - 1 < (linesFixed (pre ++ post)).length :=
+  scan_in_range pre post i h1 h2
+
+/-- **C07_old_split_out_of_range_witness** — F-07r: with the split on "\n" alone the slice of
+    "\r\rquery Q { f }" has one element, while `query` is on the lexer's line 3: the scan's first index, 1, is
+    outside it (index out of range, a Go panic) -/
+theorem C07_old_split_out_of_range_witness :
+    lexBreaks "\r\r".toList = 2 ∧ (linesOld "\r\rquery Q { f }".toList).length = 1 ∧
+    (linesFixed "\r\rquery Q { f }".toList).length = 3 := by decide
+
+/-- **C07_parsePrecedingComment_tie** — the function as it stands in /repo (regenerated on every run) is the one the
+    model above describes: split through the "\r\n"/"\r" replacer, scan upwards while lines are comments -/
+theorem C07_parsePrecedingComment_tie :
+    Extracted.parsePrecedingCommentSkeleton = GenSkel.parsePrecedingCommentSkeleton := rfl
+
+-- non-vacuity: a token on line 4 of a text with mixed line ends
+example : lexBreaks "a\r\nb\rc\n".toList = 3 ∧ (linesFixed "a\r\nb\rc\nquery".toList).length = 4 := by decide
+
+end Genq.Lines
